@@ -30,6 +30,7 @@ type Comp struct {
 	Kind  string // field | deref | cells | map | ghost | scalar
 	Elem  string // element sort
 	Desc  string
+	ElemT types.Type // Go type of the element (fields, deref)
 }
 
 type Enc struct {
@@ -387,12 +388,12 @@ func (e *Enc) fieldComp(st types.Type, i int) *Comp {
 	u := st.Underlying().(*types.Struct)
 	f := u.Field(i)
 	return e.addComp(&Comp{Name: "F_" + e.structName(st) + "_" + f.Name(), Sort: ArrSort(SInt, e.SortOf(f.Type())), Kind: "field", Elem: e.SortOf(f.Type()),
-		Desc: "field " + f.Name() + " of every " + e.structName(st)})
+		Desc: "field " + f.Name() + " of every " + e.structName(st), ElemT: f.Type()})
 }
 
 func (e *Enc) derefComp(elem types.Type) *Comp {
 	return e.addComp(&Comp{Name: "D_" + e.typeName(elem), Sort: ArrSort(SInt, e.SortOf(elem)), Kind: "deref", Elem: e.SortOf(elem),
-		Desc: "contents of every *" + e.typeName(elem)})
+		Desc: "contents of every *" + e.typeName(elem), ElemT: elem})
 }
 
 // MapSort returns the datatype sort of map values with the given key/value sorts.
@@ -401,6 +402,8 @@ func (e *Enc) MapSort(k, v string) string {
 	if _, ok := e.dts[name]; !ok {
 		e.addDT(&DT{Name: name, Ctors: []DTCtor{{Name: "mk_" + name, Fields: []DTField{
 			{name + "_dom", ArrSort(k, SBool)}, {name + "_val", ArrSort(k, v)}, {name + "_card", SInt}}}}})
+		// finite_<sort>(m): m is the value of a real (finite) Go map, card being the size of its domain
+		e.declFun("finite_"+name, []string{name}, SBool)
 	}
 	return name
 }
